@@ -12,6 +12,10 @@ CHECKS = {
             'Bounded symbolic verification: the real compute_emissions (and trajectory/LTO/APU/GSE code below it) is executed on symbolic trajectories, LTO/APU/fuel data and a symbolic configuration; per explored path z3 shows over exact reals that every balance obligation holds for all inputs (unsat), else returns a counterexample that is replayed on the real code with real numpy. Bounds: 2 (quick) / 3 (thorough) trajectory points; option product and environment dimensions as listed in the evidence.',
             'floats as reals (1e-9 tolerance); transcendental EI kernels are non-negative nondeterministic stubs (their behaviour is C12); proxy engine and numpy shim trusted as validated by the concolic cross-check in each run',
             'proxy symbolic execution of real Python + z3 QF_NRA per-path obligations', 'DESIGN.md#c01'),
+    'C02': ('other',
+            'Bounded symbolic verification: the real LegacyBuilder.fly (context, starting mass, climb/cruise/descent), Container (growable buffers, make_point, append) and Trajectory (set_phase, append, interpolate_time) run on a symbolic mission against a nondeterministic performance model (any answers within the documented contract, or an out-of-envelope refusal at any call); per explored path z3 decides for all inputs: mass minus fuel constant, masses/time/distance monotone, first point carries starting mass and fuel, altitude schedule (start/end levels, monotone per phase, constant cruise, never above cruise level/ceiling), phase hand-over, every position is the ground track\'s answer for exactly the recorded distance, finiteness of the phase arithmetic, resampling at own time points and at a symbolic intermediate time; rejected missions raise documented errors carrying the original reason. Buffer capacities are set small so growth boundaries fall inside the bound both aligned and mis-aligned with phase ends. Counterexamples replay with real numpy/pyproj and then through the public API on the shipped model.',
+            '2-3 (thorough up to 4) points per phase; quick tier uses a recording stand-in for GroundTrack (the real class is C15, and runs here in the thorough tier); products of two symbols abstracted by sign axioms and refined on sat; no weather, no mass iteration',
+            'proxy symbolic execution of the real builder/container code + z3 (LRA abstraction refined in QF_NRA)', 'DESIGN.md#c02'),
     'C11': ('other',
             'Bounded symbolic verification over configurations: the 12 documented options are solver variables read through concretising forks, the real compute_emissions runs for every feasible option combination on symbolic data; every path must return (then switched-off species are proved absent/zero in trajectory and LTO parts) or raise a refusal naming the offending option value; any other exception is a counterexample configuration, replayed through the real Config.load + compute_emissions.',
             'same engine and stubs as C01; classification of an exception as a named refusal is by message text',
@@ -25,7 +29,7 @@ CHECKS = {
             'sin/cos uninterpreted on the unit circle; interpolation (xarray) and the ISA formula (C12) are declared oracles; one query per step',
             'proxy symbolic execution + z3 QF_NRA; inductive step over the data cache with symbolic times', 'DESIGN.md#c16'),
     'C17': ('model_checking',
-            'Inductive step decided by z3: from a clean builder the real Builder.fly/_iterate_mass/__getattr__/__setattr__ run symbolically with a stub context whose constructor, starting-mass calculation and each mass iteration may raise any documented rejection (symbolic failure point) or succeed with symbolic residuals; obligations per path: builder instance state is exactly the pre-state (so every flight of any history starts from the same state), the exception leaving fly is the injected one, a returned trajectory is the last flown with |residual| < tolerance and carries that iteration\'s masses, otherwise non-convergence is reported. Concrete flight sequences on the real LegacyBuilder are compared bitwise with fresh builders as validation.',
+            'Inductive step decided by z3: from a clean builder the real Builder.fly/_iterate_mass/__getattr__/__setattr__ run symbolically with a stub context whose constructor, starting-mass calculation and each mass iteration may raise any documented rejection (symbolic failure point) or succeed with symbolic residuals; obligations per path: builder instance state is exactly the pre-state (so every flight of any history starts from the same state), the exception leaving fly is the injected one, a returned trajectory is the last flown with |residual| < tolerance and carries that iteration\'s masses, otherwise non-convergence is reported. The same statement is decided on the real LegacyBuilder: flight 2 on a used builder (after a successful or refused flight 1 with different symbolic mission/model) is term-for-term the flight of a fresh builder. Concrete flight sequences on the real LegacyBuilder are compared bitwise with fresh builders as validation.',
             'context class and phase loop are stubs (their documented rejections are the failure alphabet); state outside the builder instance is not modelled; bit-identity is validated concretely, not decided by the solver',
             'proxy symbolic execution (inductive step with symbolic fault points) + z3', 'DESIGN.md#c17'),
     'C18': ('model_checking',
